@@ -4,7 +4,7 @@
    inputs.  What is false of the faithful model is in Findings/C11.v (one finding is left: ruby-structure). *)
 From Coq Require Import QArith.
 From TT Require Import Base.Prelude Model.VttTokenizer Model.VttReader Spec.VttSpec.
-From TT Require Import Proofs.C11.Tokenizer Proofs.C11.Time Proofs.C11.Region Proofs.C11.Tree Proofs.C11.Lines.
+From TT Require Import Proofs.C11.Tokenizer Proofs.C11.Time Proofs.C11.Region Proofs.C11.Tree Proofs.C11.Lines Proofs.C11.Outcome.
 
 (* tokenizing the WebVTT syntax of a token list returns the list: every list of string / start-tag (with classes
    and annotation) / end-tag / timestamp tokens in normal form, of any length.  Annotations may hold any characters:
@@ -68,22 +68,41 @@ Theorem C11_cues_share_region_iff : forall cs rs ps a b ca cb pa pb, Forall (fun
 Proof. exact cues_share_region_iff. Qed.
 
 (* cue tree round trip, by induction on the tree: parsing the printed cue text of ANY tree of text (literal characters
-   and character references that mean what S says, ref_good), inline timestamps and b/i/u/c.classes/lang/v elements
-   (annotations with any characters) nested to any depth builds exactly the span tree that carries those styles on
-   exactly the enclosed text, and every text span carries the begin, relative to the cue, of the last timestamp before
-   it in the cue text - inside or outside tags, after any number of timestamps (spans_of threads that time through the
-   tree; repaired in f39339e).  This is the full statement for cue texts without ruby. *)
-Theorem C11_tree : forall pb att ns, wf_nodes ns ->
-  parse_cue_text pb att (print_cue_text (flat_map nodes_of ns)) = inl (fst (spans_of pb true None ns)).
+   and character references that mean what S says, ref_good), inline timestamps, b/i/u/c.classes/lang/v elements
+   (annotations with any characters) nested to any depth and END TAGS THAT CLOSE NOTHING builds exactly the span tree that
+   carries those styles on exactly the enclosed text, and every text span carries the begin, relative to the cue, of the
+   last timestamp before it in the cue text - inside or outside tags, after any number of timestamps (spans_of threads
+   that time through the tree; repaired in f39339e).  What the tree is when end tags are unmatched or misnested
+   (repaired in 2ddde69): an end tag that does not name - in lower case, as the reader compares - the innermost open
+   element is ignored (SEnd: spans_of gives it no element and lets it end nothing); at the top level of the cue text
+   every end tag is ignored (ignored_end None); doubled, wrong-name and upper-case end tags of another name are instances.
+   This is the full statement for cue texts without ruby whose elements are all closed. *)
+Theorem C11_tree : forall pb ns, wf_nodes ns ->
+  parse_cue_text pb (print_cue_text (flat_map nodes_of ns)) = inl (fst (spans_of pb true None ns)).
 Proof. exact tree_roundtrip. Qed.
+(* the same when end tags are missing: a cue text that ends inside elements (a forest, then a start tag that nothing
+   closes, then the same again; an end tag naming an outer element while an inner one is open is ignored, so the outer one
+   stays open as well).  Every unclosed element lasts to the end of the cue text and holds what follows its start tag. *)
+Theorem C11_tree_unclosed : forall pb t, wf_otree None t ->
+  parse_cue_text pb (print_cue_text (onodes t)) = inl (ospans pb true None t).
+Proof. exact tree_unclosed_roundtrip. Qed.
 (* with ruby.  Full statement (every cue text of the grammar Spec.VttSpec.cnode): refuted, Findings
    C11_ruby_structure_refuted / C11_ruby_base_timestamp_refuted (recorded finding ruby-structure).  Partial: ruby
-   elements at the top level of the cue, every base one line of text, annotations any forest of text, timestamps
-   and elements without a line break directly inside rt (wf_tnodes): Rbc holds one Rb per base, Rtc one Rt per
-   annotation, the time of the last timestamp is threaded base, annotation, base, … *)
-Theorem C11_tree_ruby_partial : forall pb att ns, wf_tnodes ns ->
-  parse_cue_text pb att (print_cue_text (flat_map tnodes_of ns)) = inl (fst (tspans_of pb None ns)).
+   elements at the top level of the cue, every base one line of text, annotations any forest of text, timestamps,
+   elements and ignored end tags without a line break directly inside rt (wf_tnodes), the last </rt> present or omitted
+   (TRubyOmit: </ruby> also ends the open rt, 2ddde69): Rbc holds one Rb per base, Rtc one Rt per annotation, the time
+   of the last timestamp is threaded base, annotation, base, … *)
+Theorem C11_tree_ruby_partial : forall pb ns, wf_tnodes ns ->
+  parse_cue_text pb (print_cue_text (flat_map tnodes_of ns)) = inl (fst (tspans_of pb None ns)).
 Proof. exact tree_ruby_roundtrip. Qed.
+(* outcome: for EVERY cue text the cue-text parser returns a tree or raises the TypeError / RuntimeError of push_child
+   (recorded finding ruby-structure), and for EVERY file text these are the only exceptions of to_model.  AttributeError
+   (the parent moved above the paragraph by an unmatched end tag, 2ddde69; ruby_rbc / ruby_rtc unset), UnboundLocalError and
+   ValueError cannot occur. *)
+Theorem C11_cue_text_exceptions : forall pb txt e, parse_cue_text pb txt = inr e -> e = ExType \/ e = ExRuntime.
+Proof. exact cue_text_exceptions. Qed.
+Theorem C11_to_model_exceptions : forall file e, to_model file = Raised e -> e = ExType \/ e = ExRuntime.
+Proof. exact to_model_exceptions. Qed.
 
 (* the file-level line machine, by induction on the list of cues: a file made of the header line and cue blocks
    (optional identifier line, timing line with hours optional and any setting words, zero or more non-blank
@@ -138,17 +157,28 @@ Example C11_example_items :
             ITok (TStart [98] None None); IStr [PRef (RefNamed [110;98;115;112])]; ITok (TEnd [98])].
 Proof. exact items_example. Qed.
 Example C11_example_tree :
-  wf_nodes [SText [PLit [97;10;98]];
-            STag TgB [STag (TgC [[114;101;100]]) [SText [PLit [120]]]; STs (mkTs None 0 12 0); SText [PLit [121]]];
+  wf_nodes [SText [PLit [97;10;98]]; SEnd [98];
+            STag TgB [STag (TgC [[114;101;100]]) [SText [PLit [120]]]; SEnd [105]; STs (mkTs None 0 12 0); SEnd [73]; SText [PLit [121]]];
+            SEnd [98];
             STag (TgV [84;111;109;32;38;32;74]) [SText [PLit [122]; PRef (RefNamed [108;114;109])]]; STag (TgLang [101;110]) []].
 Proof. exact tree_example. Qed.
+Example C11_example_tree_unclosed :
+  wf_otree None (OOpen [SText [PLit [97]]] TgB (OOpen [SText [PLit [120]]] TgI
+                   (ODone [SText [PLit [121]]; SEnd [98]; SText [PLit [122]]]))).
+Proof. exact tree_unclosed_example. Qed.
 Example C11_example_numeric_refs : ref_good (RefDec 233) /\ ref_good (RefHex 128512) /\ ref_good (RefDec 60).
 Proof. exact numeric_refs_example. Qed.
 Example C11_example_tree_ruby :
   wf_tnodes [TPlain (SText [PLit [120]]);
-             TRuby [([PLit [98;97;115;101]], [SText [PLit [97;110]]; STag TgB [SText [PLit [110]]]]); ([PLit [98;50]], [])];
-             TPlain (SText [PLit [121]])].
+             TRuby [([PLit [98;97;115;101]], [SText [PLit [97;110]]; STag TgB [SText [PLit [110]]]; SEnd [120]]); ([PLit [98;50]], [])];
+             TPlain (SText [PLit [121]]);
+             TRubyOmit [] ([PLit [98;51]], [SText [PLit [99]]])].
 Proof. exact tree_ruby_example. Qed.
+(* S accepts what M reads on </b><ruby>a<rt>b</ruby>c</ruby><b><i>x</b>y</i>z (every clause of the judge) *)
+Example C11_example_unmatched_judged :
+  VttSpec.cue_text_valid (c_payload (match f_blocks unmatched_example with BCue c :: _ => c | _ => mkCue None (mkTs None 0 0 0) (mkTs None 0 0 0) [] [] end)) = true /\
+  VttCases.judge unmatched_example (print_file unmatched_example) (to_model (print_file unmatched_example)) = [].
+Proof. exact unmatched_example_judged. Qed.
 Example C11_example_blocks :
   Forall rblock_ok
     [RSkip [[78;79;84;69;32;97]; [48;48;58;48;49;46;48;48;48;32;45;45;62;32;120]];
@@ -174,7 +204,10 @@ Print Assumptions C11_webvtt_named_refs.
 Print Assumptions C11_dec_ref_good.
 Print Assumptions C11_hex_ref_good.
 Print Assumptions C11_tree.
+Print Assumptions C11_tree_unclosed.
 Print Assumptions C11_tree_ruby_partial.
+Print Assumptions C11_cue_text_exceptions.
+Print Assumptions C11_to_model_exceptions.
 Print Assumptions C11_cues.
 Print Assumptions C11_blocks.
 Print Assumptions C11_skipped_blocks_invisible.
